@@ -865,12 +865,13 @@ fn check(c: &Case, obs: &mut Obs) {
     match verdict {
         Verdict::Ok(d) => {
             obs.class("returned-ok");
-            obs.nontrivial = d > 0;
+            // (pixels: the file was read and at least one decoding call succeeded)
+            obs.nontrivial = if name == "pixels" { d > 1 } else { d > 0 };
             obs.class(format!("depth:{}", depth_bucket(d)));
         }
         Verdict::Err(d) => {
             obs.class("returned-err");
-            obs.nontrivial = d > 0;
+            obs.nontrivial = if name == "pixels" { d > 1 } else { d > 0 };
             obs.class(format!("depth:{}", depth_bucket(d)));
         }
         Verdict::Panic(sig, detail) => {
